@@ -9,7 +9,7 @@ use crate::world::{Profile, RunOpts, SEC};
 
 const COMMON_ASSUMPTIONS: &[&str] = &[
     "time never goes backwards and events() is pulled after every call (documented caller obligations)",
-    "credential strings are restricted to those on which OpaqueString (PRECIS) is the identity",
+    "credential strings come from a fixed table whose OpaqueString (RFC 8265) result is known a priori: the identity for user names and realms; passwords additionally contain U+00A0 / U+2003 (mapped to U+0020) and two non-NFC sequences (e + U+0301, U+212B) whose composition is hard-coded; PRECIS itself is not re-implemented",
     "the simulator's own reference codec/crypto (self-tested against RFC vectors at start-up) is trusted",
     "sampling, not proof: a clean batch is evidence for the explored plans only",
 ];
@@ -510,7 +510,7 @@ fn check_c07(l: &Ledger, _e: &[(String, String)], _s: &PropSpec) -> Vec<Violatio
 /// Reply-class sequence per transaction: for every response/indication handed to the client, the class of
 /// its integrity protection as the independent verifier sees it, together with the client's reaction.
 fn reply_classes(l: &Ledger) -> Vec<(u8, u8, u8, u8)> {
-    let key = l.cfg.password.as_bytes().to_vec();
+    let key = l.cfg.pw().into_bytes();
     let mut seq = vec![];
     for st in &l.steps {
         if let Call::Recv { bytes, .. } = &st.call {
